@@ -454,7 +454,6 @@ class FitsSim:
             "p_overwrite": r.choice([0.3, 0.5, 0.8]),
             "p_fault": r.choice([0.08, 0.15, 0.3]) if self.mode == "fault" else 0.0,
             "fault_sites": fault_sites if self.mode == "fault" else [],
-            "fd_limit": (r.choice([0, 0, 40, 64]) if self.cfg.get("tier") == "thorough" else 0),
         }
 
     # -- helpers ----------------------------------------------------------------------------------
@@ -514,12 +513,6 @@ class FitsSim:
         os.makedirs(self.root, exist_ok=True)
         status = "ok"
         try:
-            if self.knobs.get("fd_limit"):
-                import resource
-
-                soft, hard = resource.getrlimit(resource.RLIMIT_NOFILE)
-                resource.setrlimit(resource.RLIMIT_NOFILE, (min(self.knobs["fd_limit"], soft), hard))
-                self.probe("fd_pressure_runs")
             self.objs = {}
             for spec in self.recipe:
                 self.objs[spec["id"]] = Obj(spec)
